@@ -46,7 +46,7 @@ ID = "C13"
 LEAN_TARGETS = ["RV.C13.Props", "RV.C13.Audit"]
 AUDIT = "RV/C13/Audit.lean"
 DRIVER = "drv_c13"
-CASES = {"quick": 800, "thorough": 16000, "search": 6000}
+CASES = {"quick": 600, "thorough": 16000, "search": 6000}
 RULE = ("random datasets (0-3 named graphs incl. blank-node-named, empty and registered-empty ones, ~30 terms incl. unbound namespaces, "
         "blank nodes, RDF lists, falsy literals) as Dataset (default_union on/off), ConjunctiveGraph, plain Graph or a "
         "Graph view; 18-30 read-only calls per case drawn from all serializer formats x option sets, ~50 SPARQL "
@@ -75,6 +75,7 @@ TERM = {
     29: URIRef("http://t/ns#T"),                           # a class in another unbound namespace
     30: URIRef("http://one/s"), 31: URIRef("http://one/p"),     # namespaces for `_x` / `p_x` prefix pairs
     32: URIRef("http://two/s"), 33: URIRef("http://three/p"),
+    34: URIRef("http://dot/ns#s"), 35: URIRef("http://dot/ns#p."),   # a predicate whose local name ends in "."
     20: Literal(""), 21: Literal(0), 22: Literal(False), 23: Literal("x", lang="en"), 24: Literal("1"),
     25: Literal("2024-02-03", datatype=XSD.date), 26: RDF.nil, 27: Literal("a\"b\nc"), 28: URIRef(EX + "C"),
 }
@@ -173,7 +174,7 @@ QT = [
     "SELECT ?s (BNODE() AS ?b) WHERE { ?s {P} ?o }",                   # fresh blank nodes: exempt from determinism
     "SELECT ?s (RAND() AS ?r) (NOW() AS ?t) (UUID() AS ?u) WHERE { ?s ?p ?o } LIMIT 1",
 ]
-FRESH_MARKS = ("BNODE()", "RAND()", "NOW()", "UUID()", "[ ")
+FRESH_MARKS = ("BNODE()", "RAND()", "NOW()", "UUID()", "[ ", "_:t")
 
 
 # documents a FROM / FROM NAMED clause can LOAD (QueryContext.load): written into a temp dir per case, named in the
@@ -285,6 +286,8 @@ def gen_dataset(rng, cfg):
             quads.append([rng.choice(SUBJ), 11, cells[-1], g])   # shared tail
     elif pop and rng.random() < 0.1:
         quads.append([rng.choice(SUBJ), 10, 26, rng.choice(pop)])  # empty list as object
+    if pop and rng.random() < 0.08:
+        quads.append([34, 35, rng.choice([24, 34]), rng.choice(pop)])   # predicate local name ends in "."
     return quads, sorted(set(empty))
 
 
@@ -310,12 +313,14 @@ def _opt(rng, ids, p_none=0.5):
 def gen_read(rng, cfg, quads, kind=None):
     """one read-only call"""
     multi = cfg not in ("g", "view")
-    kinds = ["ser"] * 30 + ["q"] * 24 + ["path"] * 8 + ["cmp"] * 8 + ["basic"] * 14 + ["nav"] * 10
+    kinds = ["ser"] * 30 + ["q"] * 24 + ["path"] * 8 + ["cmp"] * 8 + ["basic"] * 14 + ["nav"] * 10 + ["iso"] * 4 + ["pathvar"] * 4
     if multi:
         kinds += ["ctx"] * 16
     kind = kind or rng.choice(kinds)
     some = (lambda: rng.choice(quads)) if quads else (lambda: [rng.choice(SUBJ), rng.choice(PRED), rng.choice(OBJ), 0])
     gsel = lambda: rng.choice([0, 1, 2, 3, 4, 9])  # noqa: E731
+    if kind in ("iso", "pathvar"):
+        return gen_aba(rng, cfg, {"quads": list(quads), "empty": []}, fam=kind)[1]
     if kind == "ser":
         fmt = rng.choice(SER_FORMATS + ["json-ld", "json-ld", "trig", "trix", "hext", "nquads"])
         return ["ser", fmt, rng.choice(OPTS_FOR.get(fmt, ["plain", "base", "bytes", "stream"]))]
@@ -374,14 +379,14 @@ REGEX_PATTERNS = ["e/c$", "^HTTP", "X", "^x$", "B.C", "ns#t"]
 MIX_QUADS = [[1, 10, 3, 0], [1, 10, 28, 0], [2, 11, 23, 0], [2, 15, 27, 0], [3, 12, 29, 0]]
 
 
-def gen_aba(rng, cfg, case):
+def gen_aba(rng, cfg, case, fam=None):
     """two RELATED reads R, R' (same query text / pattern / format with other arguments, or another graph):
     the schedule R, R', R must give the first answer again.  May extend the case (quads, binds, other graph)."""
     quads = case["quads"]
-    fam = rng.choice(["base", "base", "initb", "initns", "regex", "regex", "lang", "prefix", "prefix", "seropt",
-                      "generic", "order"])
+    fam = fam or rng.choice(["base", "base", "initb", "initns", "regex", "regex", "lang", "prefix", "prefix", "seropt",
+                      "generic", "order", "prepq", "prepq", "pathvar", "pathvar", "iso", "iso"])
     prep = rng.choice([4, 4, 0])
-    if fam in ("regex", "lang", "base", "initb", "order"):
+    if fam in ("regex", "lang", "base", "initb", "order", "prepq", "pathvar"):
         for q in MIX_QUADS:
             if q not in quads and cfg != "view":
                 quads.append(list(q))
@@ -389,6 +394,42 @@ def gen_aba(rng, cfg, case):
         t = rng.choice(BASE_Q).replace("{P}", _n3(TERM[rng.choice([10, 11])]))
         a, b = rng.sample(BASES, 2)
         return fam, ["q", t, prep, a], ["q", t, prep, b]
+    if fam == "prepq":
+        # one PREPARED CONSTRUCT / ASK / DESCRIBE evaluated >= 3 times; templates with constant triples and
+        # template-only blank nodes, CONSTRUCT WHERE with a constant triple
+        case["reps"] = 3
+        ts = ["CONSTRUCT { {S} {P} {O} . ?s {P2} ?o } WHERE { ?s {P} ?o }",
+              "CONSTRUCT { ?s {P2} ?o . {S} a {S2} . {S2} {P} \"k\" } WHERE { ?s ?p ?o }",
+              "CONSTRUCT { _:t {P2} ?o . _:t a {S} . {S} {P} {S2} } WHERE { ?s {P} ?o }",
+              "CONSTRUCT WHERE { {S} {P} ?o . ?s {P2} ?o2 }",
+              "CONSTRUCT WHERE { {S} {P} {O2} . ?s {P} ?o }",
+              "CONSTRUCT { {S} {P} {S2} } WHERE { }",
+              "ASK { {S} {P} ?o . ?s {P2} ?o2 }",
+              "DESCRIBE {S} ?s WHERE { ?s {P} ?o }"]
+        t = rng.choice(ts)
+        t = t.replace("{O2}", rng.choice(["<http://e/c>", "<http://e/C>"]))
+        t = inst_query(rng, t.replace("{P}", "<http://e/p>") if rng.random() < 0.7 else t)
+        a, b = rng.sample([{}, {"ib": 1}, {"ib": 2}], 2)
+        return fam, ["q", t, 4, a], ["q", t, 4, b if rng.random() < 0.4 else a]
+    if fam == "pathvar":
+        # a path object kept in a variable: reads with paths DERIVED from it, and with the object itself
+        base = rng.choice([["seq", ["p", 10], ["p", 11]], ["seq", ["p", 10], ["p", 10]], ["alt", ["p", 10], ["p", 11]],
+                           ["alt", ["p", 12], ["p", 15]], ["seq", ["p", 14], ["p", 13]], ["p", 10],
+                           ["seq", ["alt", ["p", 10], ["p", 11]], ["p", 12]]])
+        form = lambda: rng.choice(["objects", "subjects", "subject_objects", "triples"])  # noqa: E731
+        d1, d2 = rng.sample(["/", "|", "~", "*+", "**", "*?", "-", "self", "/", "|"], 2)
+        s_ = rng.choice([1, 2, 3, None])
+        return fam, ["pathvar", base, d1, rng.choice(PRED), form(), s_], ["pathvar", base, d2, rng.choice(PRED), form(), s_]
+    if fam == "iso":
+        # compare reads on operands that ARE IsomorphicGraph objects / aggregates / other views of the store
+        kinds = ["iso", "iso", "iso", "roga", "cg", "view"]
+        gs = sorted({q[3] for q in quads}) or [0]
+        fs = ["graph_diff", "graph_diff", "isomorphic", "to_isomorphic", "similar", "to_canonical_graph", "eq",
+              "internal_hash"]
+        a = rng.choice(gs)
+        b = a if rng.random() < 0.5 else rng.choice(gs)
+        return (fam, ["iso", rng.choice(fs), rng.choice(kinds), a, rng.choice(kinds), b],
+                ["iso", rng.choice(fs), rng.choice(kinds), a, rng.choice(kinds), b])
     if fam == "order":
         t = rng.choice(["SELECT ?s ?p ?o WHERE { ?s ?p ?o } ORDER BY ?s DESC(?o) ?p",
                         "SELECT ?s ?o WHERE { ?s ?p ?o } ORDER BY DESC(?p) ?o LIMIT 3 OFFSET 1",
@@ -452,9 +493,10 @@ def gen_case(rng, tier, i):
         reads = [r1, r2] if rng.random() < 0.5 else [r2, r1]
         if rng.random() < 0.3:
             reads.insert(rng.randint(1, 2), gen_aba(rng, cfg, case)[rng.randint(1, 2)])
-        case.update({"twice": rng.random() < 0.25, "reads": reads, "ref": True, "aba": fam})
+        twice = rng.random() < (0.7 if fam in ("prepq", "pathvar", "iso") else 0.25)
+        case.update({"twice": twice, "reads": reads, "ref": True, "aba": fam})
         return case
-    case["ref"] = rng.random() < 0.12
+    case["ref"] = rng.random() < 0.08
     n = rng.randint(18, 30) if case["twice"] else rng.randint(2, 5)
     reads = []
     if case["twice"]:
@@ -522,6 +564,48 @@ def build_other(case):
     for s_, p_, o_ in spec["quads"]:
         g.add((TERM[s_], TERM[p_], TERM[o_]))
     return g
+
+
+_OPER = {}
+_PATHS = {}
+
+
+def build_aux(case, top):
+    """objects a caller keeps between reads: the other graph, compare operands, path variables"""
+    _OTHER["g"] = build_other(case)
+    _OPER.clear()
+    _OPER["top"] = top
+    _PATHS.clear()
+
+
+def _operand(case, kind, g):
+    """an operand for the compare reads, built once per run and then RE-USED (it is the caller's object):
+    iso = an IsomorphicGraph holding a copy of graph g; roga = a ReadOnlyGraphAggregate over views;
+    cg = another ConjunctiveGraph object on the dataset's store; view = a Graph view"""
+    key = (kind, g)
+    if key in _OPER:
+        return _OPER[key]
+    top = _OPER["top"]
+    cfg = case["cfg"]
+    view = top if cfg == "g" else top.get_context(_gid(cfg, g))
+    if kind == "iso":
+        o = rcompare.IsomorphicGraph()
+        for t in view.triples((None, None, None)):
+            o.add(t)
+    elif kind == "roga":
+        o = ReadOnlyGraphAggregate([view, view if cfg == "g" else top.get_context(_gid(cfg, 0))])
+    elif kind == "cg" and cfg != "g":
+        o = ConjunctiveGraph(store=top.store, identifier=_gid(cfg, g))
+    else:
+        o = view
+    _OPER[key] = o
+    return o
+
+
+def _operand_snapshot(o):
+    if isinstance(o, ConjunctiveGraph) and not isinstance(o, rcompare.IsomorphicGraph):
+        return None                  # a view of the dataset's own store: covered by the dataset snapshot
+    return set(o.triples((None, None, None)))
 
 
 def snapshot(case, top):
@@ -650,6 +734,69 @@ def do_read(case, top, target, rd):
         finally:
             if set(other) != before_o:
                 _SIDE_VIOL.append("mutated:oser: serialising the other graph changed it")
+    if api == "iso":
+        _, f, ka, a, kb, b = rd
+        ga, gb = _operand(case, ka, a), _operand(case, kb, b)
+        before_ops = (_operand_snapshot(ga), _operand_snapshot(gb))
+        try:
+            if f == "graph_diff":
+                return [_bag(set(x)) for x in rcompare.graph_diff(ga, gb)]
+            if f == "isomorphic":
+                return [rcompare.isomorphic(ga, gb), ga.isomorphic(gb)]
+            if f == "to_isomorphic":
+                r = rcompare.to_isomorphic(ga)
+                return _bag(set(r)) + [r == rcompare.to_isomorphic(gb), r is ga]
+            if f == "similar":
+                return [rcompare.similar(ga, gb)]
+            if f == "to_canonical_graph":
+                return _bag(set(rcompare.to_canonical_graph(ga))) + _bag(set(rcompare.to_canonical_graph(gb)))
+            if f == "eq":
+                return [ga == gb, ga != gb, hash(ga) == hash(gb), len(ga), len(gb)]
+            if f == "internal_hash":
+                return [str(rcompare.to_isomorphic(ga).internal_hash()), str(rcompare.to_isomorphic(gb).graph_digest())]
+            raise ValueError(rd)
+        finally:
+            for which, o, bef in (("first", ga, before_ops[0]), ("second", gb, before_ops[1])):
+                if bef is not None and _operand_snapshot(o) != bef:
+                    lost = sorted(_k(t) for t in bef - _operand_snapshot(o))
+                    _SIDE_VIOL.append(f"mutated:iso/{f}: the {which} operand ({type(o).__name__} of graph "
+                                      f"{GTOK.get(a if which == 'first' else b)}) changed: lost {lost[:4]}, gained "
+                                      f"{sorted(_k(t) for t in _operand_snapshot(o) - bef)[:4]}")
+    if api == "pathvar":
+        _, spec, deriv, extra, form, s_ = rd
+        key = _json.dumps(spec)
+        chain = _PATHS.get(key)
+        if chain is None:
+            chain = _PATHS[key] = _mk_path(spec)        # `chain = a / b`, kept in a variable
+        shape = repr(chain)
+        x = TERM[extra]
+        try:
+            if deriv == "/":
+                p = chain / x
+            elif deriv == "|":
+                p = chain | x
+            elif deriv == "~":
+                p = ~chain
+            elif deriv in ("*+", "**", "*?"):
+                p = chain * deriv[1]
+            elif deriv == "-":
+                p = -chain
+            else:
+                p = chain
+
+            def ev(path):
+                if form == "objects":
+                    return _bag(target.objects(_t(s_), path))
+                if form == "subjects":
+                    return _bag(target.subjects(path, _t(s_)))
+                if form == "subject_objects":
+                    return _bag(target.subject_objects(path))
+                return _bag(target.triples((_t(s_), path, None)))
+            return [ev(p), ev(chain), repr(p)]
+        finally:
+            if repr(chain) != shape:
+                _SIDE_VIOL.append(f"argument-mutated:pathvar: the path object kept by the caller changed from {shape} "
+                                  f"to {repr(chain)} while a path derived from it ({deriv}) was built / read")
     if api == "ser":
         _, fmt, optname = rd
         kw = dict(SER_OPTS[optname])
@@ -921,12 +1068,19 @@ def same_answer(a, b):
     if isinstance(a, Text) and isinstance(b, Text):
         if a.text == b.text:
             return True
-        try:
-            return isoutil.iso(_parse_back(a), _parse_back(b))
-        except core.CaseTimeout:
-            raise
-        except Exception:
+        parsed = []
+        for x in (a, b):
+            try:
+                parsed.append(_parse_back(x))
+            except core.CaseTimeout:
+                raise
+            except Exception:
+                parsed.append(None)
+        if parsed[0] is None and parsed[1] is None:
             return None
+        if parsed[0] is None or parsed[1] is None:
+            return False          # one answer is a readable document, the other is not
+        return isoutil.iso(parsed[0], parsed[1])
     if isinstance(a, Fresh) and isinstance(b, Fresh):
         return isoutil.iso(a.tuples, b.tuples)
     if type(a) is not type(b):
@@ -941,6 +1095,8 @@ def api_name(rd):
         return "ser/" + rd[1]
     if rd[0] == "q":
         return "query/" + rd[1].split()[0]
+    if rd[0] == "pathvar":
+        return "pathvar/" + rd[2]
     return rd[0] + "/" + str(rd[1])
 
 
@@ -987,7 +1143,7 @@ def _reference_one(case, k, doc_urls):
     _DOC_URLS.update(doc_urls)
     _PREPARED.clear()
     top, target = build(case)
-    _OTHER["g"] = build_other(case)
+    build_aux(case, top)
     return _enc(_call(case, top, target, case["reads"][k]))
 
 
@@ -1139,7 +1295,7 @@ def run_impl(case):
 def _run_impl(case, refs=None):
     _PREPARED.clear()
     top, target = build(case)
-    _OTHER["g"] = build_other(case)
+    build_aux(case, top)
     obs, viol, stats = [], [], {}
     first_answers = {}
     before = snapshot(case, top)
@@ -1183,15 +1339,16 @@ def _run_impl(case, refs=None):
         if k == 0:
             first_ans = a1
         first_answers.setdefault(_json.dumps(rd), (k, a1))
-        if case["twice"]:
+        for rep_no in range(2, (case.get("reps", 2) if case["twice"] else 1) + 1):
             a2 = _call(case, top, target, rd)
-            now = check_state(k, rd, "second call")
+            now = check_state(k, rd, f"call {rep_no}")
             same = same_answer(a1, a2)
             if same is None:
                 bump("determinism_undecided")
             elif not same:
-                viol.append(f"nondeterministic:{name}: read #{k} {rd!r} answered differently twice in a row: "
+                viol.append(f"nondeterministic:{name}: read #{k} {rd!r} answered differently on call {rep_no} in a row: "
                             f"{_short(a1)} vs {_short(a2)}")
+                break
         obs.append(_obs_line(now))
         bump("api_" + rd[0])
         if rd[0] == "ser":
@@ -1303,6 +1460,10 @@ def model_read(case, rd):
         return _model_ser(rd, multi)
     if api == "oser":
         return "read pure"            # another graph (own store) is serialised: this dataset is not involved
+    if api == "iso":
+        return "read copy"            # compare functions: copies (operands may be views of this dataset)
+    if api == "pathvar":
+        return "read pure"
     if api == "cmp" and rd[1] == "skolemize":
         return "read skolemize"
     if api == "basic" and rd[1] == "qname":
@@ -1348,7 +1509,7 @@ def model_lines(case):
     for rd in case["reads"]:
         lines.append(model_read(case, rd))
         if case["twice"]:
-            lines.append(model_read(case, rd))
+            lines += [model_read(case, rd)] * (case.get("reps", 2) - 1)
         lines.append("obs")
     if not case["twice"] and case["reads"]:
         lines.append(model_read(case, case["reads"][0]))
@@ -1381,6 +1542,8 @@ def shrink(case):
         yield {**case, "empty": empty[:i] + empty[i + 1:]}
     if case["twice"]:
         yield {**case, "twice": False}
+    if case.get("reps", 2) > 2:
+        yield {**case, "reps": 2}
 
 
 def _m_jsonld(case, result):
